@@ -31,8 +31,8 @@ ARGV = st.one_of(st.integers(-5, 5), st.sampled_from(["", "a", None, 0.5, True])
 
 
 # keyword names of the payload's own arguments - also names that a runtime API might be tempted to claim for itself
-# (`flavour` is the documented keyword of adopt/execute; `payload` and `self` are their positional parameters)
-KWARG_NAMES = ["a", "b", "key", "flavour_", "x", "timeout", "delay", "name", "loop", "args", "kwargs", "block", "target", "daemon", "callback"]
+# (`flavour` is the documented keyword of adopt/execute; `payload` and `self` are the names of their positional parameters)
+KWARG_NAMES = ["a", "b", "key", "flavour_", "x", "timeout", "delay", "name", "loop", "args", "kwargs", "block", "target", "daemon", "callback", "payload", "self"]
 
 
 @st.composite
